@@ -7,7 +7,7 @@ class C02(Prop):
     pid = "C02"
     prop_file = "Props/C02.v"
     module = "Props.C02"
-    gen_deps = ["Table"]
+    gen_deps = ["Table", "ParserFn"]
     harness = ("h-core", "hcore")
     nontrivial_rule = ("cases: the 16 rows of the public state_change function (16x256, exhaustive); every byte string up to length L over the "
                        "28-symbol class alphabet (exhaustive; L=3 quick, 4 thorough); boundary-biased grammar streams; each stream again after a random prefix + CAN/SUB. "
